@@ -1,7 +1,7 @@
 (* model side of the filters engine (C12); mode from argv[1]:
      model : case line -> result line in the harness' format
      spec  : case fields | C result fields  -> ok | bad | pre
-   case:  cc <outcomes> <user: mode byte + file> <domain: mode byte + file> <global: mode byte + file> <key> *)
+   case:  cc <outcomes> <user: mode byte + file> <domain: mode byte + file> <global: mode byte + file> <key> [<session>] *)
 open M
 
 (* ---- decimal <-> Z without going through OCaml ints (values reach LONG_MAX) *)
@@ -33,18 +33,23 @@ let errno_word = function E0 -> "0" | EINVAL -> "EINVAL" | ERANGE -> "ERANGE"
 let setting ((v, t), e) = string_of_z v ^ "," ^ string_of_z t ^ "," ^ errno_word e
 let nat_hex l = hex_of_bytes (List.map (fun x -> n_of_int (int_of_nat x)) l)
 
-let run fs = match fs with
-  | [ "cc"; o; u; d; g; k ] ->
+let split_case fs = match fs with
+  | [ "cc"; o; u; d; g; k ] -> Some (o, u, d, g, k, [])
+  | [ "cc"; o; u; d; g; k; s ] -> let sb = bytes_of_hex s in if sb = [] then None else Some (o, u, d, g, k, sb)
+  | _ -> None
+
+let run fs = match split_case fs with
+  | Some (o, u, d, g, k, sess) ->
       let (um, uf) = mode_and_file u and (dm, df) = mode_and_file d and (gm, gf) = mode_and_file g in
       let key = bytes_of_hex k in
-      if has_nul key then None else Some (rcpt_case (bytes_of_hex o) um uf dm df gm gf key)
-  | _ -> None
+      if has_nul key then None else Some (rcpt_case (bytes_of_hex o) um uf dm df gm gf key sess)
+  | None -> None
 
 let show = function
   | None | Some CBadCase -> "BADCASE"
   | Some CGlobalErr -> "GLOBALERR"
   | Some CCtrlErr -> "rc=-3 reply=- ok=0 good=0 trace=- p1=- p2=- ctrlerr=1 leak=0"
-  | Some (CDone (res, trace, fmsg, p1, p2) as r) ->
+  | Some (CDone (res, trace, _, p1, p2) as r) ->
       let replies = match observe r with Some (ODone (rs, _, _, _, _, _, _)) -> rs | _ -> [] in
       let ok = if res.rr_ok then "1" else "0" in
       Printf.sprintf "rc=0 reply=%s ok=%s good=%s trace=%s p1=%s p2=%s ctrlerr=0 leak=%s"
@@ -78,18 +83,18 @@ let parse_obs (o : string list) : observation option =
       end
     with Not_found | Failure _ -> None)
 
-let spec c o = match c with
-  | [ "cc"; oc; u; d; g; k ] ->
+let spec c o = match split_case c with
+  | Some (oc, u, d, g, k, sess) ->
       let (um, uf) = mode_and_file u and (dm, df) = mode_and_file d and (gm, gf) = mode_and_file g in
       let key = bytes_of_hex k in
       if has_nul key then "pre" else
       (match parse_obs o with
        | None ->
            (* CRASH / TIMEOUT / an error return: bad unless the case is outside the precondition *)
-           (match spec_ok_C12 (bytes_of_hex oc) um uf dm df gm gf key OErr with VPre -> "pre" | _ -> "bad")
+           (match spec_ok_C12 (bytes_of_hex oc) um uf dm df gm gf key sess OErr with VPre -> "pre" | _ -> "bad")
        | Some obs ->
-           (match spec_ok_C12 (bytes_of_hex oc) um uf dm df gm gf key obs with VPre -> "pre" | VOk -> "ok" | VBad -> "bad"))
-  | _ -> "BADCASE"
+           (match spec_ok_C12 (bytes_of_hex oc) um uf dm df gm gf key sess obs with VPre -> "pre" | VOk -> "ok" | VBad -> "bad"))
+  | None -> "BADCASE"
 
 let () =
   match Sys.argv.(1) with
